@@ -6,10 +6,10 @@ import random
 
 from .. import tlc, runner, corpus, profiles
 
-C09_INV = ["Axioms", "SumOfGroups", "BracketF", "BracketU", "ChargeRows", "PiLine", "ConfPiLine", "ChargeGrid"]
+C09_INV = ["Axioms", "SumOfGroups", "BracketF", "BracketU", "ChargeRows", "PiLine", "ConfPiLine", "ConfChargeRows", "ChargeGrid"]
 C09_DIAG = ["BisectConforms"]
 C10_INV = ["GridExact", "ChargeGrid", "FoldSum", "LinkGroups", "LinkTotal", "Optimum", "Range80", "StabRange",
-           "FoldRows", "OptLine", "ChargeRows"]
+           "FoldRows", "OptLine", "ChargeRows", "ConfChargeRows"]
 
 GRIDS_Q = [("0", "14", "0.1"), ("0", "14", "0.5"), ("2", "8", "0.25"), ("3", "9", "0.05"), ("0", "14", "1"), ("0", "3", "0.125"),
            ("6", "7", "0.025"), ("3", "9", "0.15"), ("0", "14", "0.4")]
